@@ -308,6 +308,58 @@ pub fn run_once<C: Runnable>(case: &C, k: u32, plan: Vec<(u64, Fault, Mode)>, ke
     out
 }
 
+/// Groups the assignment indices of one traced honest synthesis by *cell kind* = (region name,
+/// column, region-relative offset), in order of first appearance. A strided index sweep can miss
+/// a rarely used region shape entirely; sweeping one (or the first and the last) representative
+/// of every kind cannot.
+pub fn kinds_of_trace(names: &[String], trace: &[verif::TraceEntry]) -> Vec<(String, Vec<u64>)> {
+    let mut pos: std::collections::HashMap<String, usize> = Default::default();
+    let mut kinds: Vec<(String, Vec<u64>)> = vec![];
+    for (i, t) in trace.iter().enumerate() {
+        let name = names.get(t.region as usize).map(|s| s.as_str()).unwrap_or("?");
+        let key = format!("{name}|c{}|o{}", t.column, t.offset);
+        let at = *pos.entry(key.clone()).or_insert_with(|| {
+            kinds.push((key, vec![]));
+            kinds.len() - 1
+        });
+        kinds[at].1.push(i as u64);
+    }
+    kinds
+}
+
+/// One honest synthesis with the assignment trace on; `None` if it panics or fails.
+pub fn trace_kinds<C: Runnable>(case: &C, k: u32) -> Option<Vec<(String, Vec<u64>)>> {
+    EXPO.with(|e| *e.borrow_mut() = ExpoLog::default());
+    verif::set_plan(vec![]);
+    verif::set_tracing(true);
+    let r = catch(|| case.r_mock(k));
+    let (names, trace) = verif::take_trace();
+    verif::reset();
+    EXPO.with(|e| *e.borrow_mut() = ExpoLog::default());
+    match r {
+        Ok(Ok(_)) => Some(kinds_of_trace(&names, &trace)),
+        _ => None,
+    }
+}
+
+/// `per_kind` = 1: the first occurrence of every kind; 2: first and last; sorted, deduplicated.
+pub fn kind_representatives(kinds: &[(String, Vec<u64>)], per_kind: usize) -> Vec<u64> {
+    let mut v: Vec<u64> = vec![];
+    for (_, idxs) in kinds {
+        if let Some(f) = idxs.first() {
+            v.push(*f);
+        }
+        if per_kind >= 2 {
+            if let Some(l) = idxs.last() {
+                v.push(*l);
+            }
+        }
+    }
+    v.sort();
+    v.dedup();
+    v
+}
+
 impl RunOut {
     /// Rebuild (ins, outs) from a modified flat vector.
     pub fn unflatten(&self, flat: &[F]) -> (Vec<Vec<F>>, Vec<Vec<F>>) {
